@@ -237,6 +237,7 @@ func (t *T0x0200AdditionExtension0x66) Parse(id uint8, content []byte) (Addition
 		t.T0x0200ExtensionSBBase.parse(content[5:40])
 		t.AlarmOrEventCount = content[40]
 		if len(content) == 40+int(t.AlarmOrEventCount)*9 {
+			t.AlarmOrEventList = nil
 			for i := 0; i < int(t.AlarmOrEventCount); i++ {
 				start := 41 + i*9
 				t.AlarmOrEventList = append(t.AlarmOrEventList, T0x0200ExtensionTable22{
@@ -419,6 +420,7 @@ func (t *T0x0200ExtensionSBBase) parse(data []byte) {
 }
 
 func (vs *T0x0200ExtensionTable18) parse(value uint16) {
+	*vs = T0x0200ExtensionTable18{}
 	vs.OriginalValue = value
 	data := fmt.Sprintf("%.16b", vs.OriginalValue)
 	if data[15] == '1' {
